@@ -297,16 +297,16 @@ impl<Key, Value> CacheD<Key, Value>
         let key_id = update_response.key_id_or_panic();
         #[cfg(feature = "cached_verif")]
         crate::cache::verif::point("upsert.weight_of");
-        let existing_weight = self.admission_policy.weight_of(&key_id).unwrap_or(0);
+        let existing_weight = self.admission_policy.weight_of(&key_id);
 
         let updated_weight = match update_response.type_of_expiry_update() {
             TypeOfExpiryUpdate::Added(key_id, expiry) => {
                 self.ttl_ticker.put(key_id, expiry);
-                updated_weight.or_else(|| Some(existing_weight + Calculation::ttl_ticker_entry_size() as i64))
+                updated_weight.or_else(|| existing_weight.map(|weight| weight + Calculation::ttl_ticker_entry_size() as i64))
             }
             TypeOfExpiryUpdate::Deleted(key_id, expiry) => {
                 self.ttl_ticker.delete(&key_id, &expiry);
-                updated_weight.or_else(|| Some(existing_weight - Calculation::ttl_ticker_entry_size() as i64))
+                updated_weight.or_else(|| existing_weight.map(|weight| weight - Calculation::ttl_ticker_entry_size() as i64))
             }
             TypeOfExpiryUpdate::Updated(key_id, old_expiry, new_expiry) => {
                 self.ttl_ticker.update(key_id, &old_expiry, new_expiry);
